@@ -14,7 +14,7 @@ pub fn run(cfg: &Cfg, rep: &mut Report) {
     let nmsg = cfg.n(8, 120, 300) as usize;
     run_cases(cfg, "arity", ntrees, rep, |rng, ctx| {
         let (specs, nh) = TreeGen::generate(rng, true);
-        let arity: Vec<(usize, usize)> = (0..nh).map(|_| (rng.usize(5), rng.usize(5))).collect();
+        let arity: Vec<(usize, usize)> = (0..nh).map(|_| if rng.chance(1, 30) { (rng.usize(3), 300) } else { (rng.usize(5), rng.usize(5)) }).collect();
         // pull order: usually required first then optional, sometimes interleaved (optional pulls before required ones)
         let orders: Vec<Vec<bool>> = (0..nh)
             .map(|i| {
@@ -74,7 +74,8 @@ pub fn run(cfg: &Cfg, rep: &mut Report) {
                 let n = match rng.usize(10) {
                     0 if m > 0 => rng.usize(m),             // too few
                     1 => m + o + 1 + rng.usize(2),          // too many
-                    _ => m + rng.usize(o + 1),              // fits
+                    2 if o >= 300 && !ctx.cfg.tiny => 250 + rng.usize(50), // many parameters, all of them wanted
+                    _ => m + rng.usize(o.min(6) + 1),       // fits
                 };
                 let mut data = vec![];
                 for _ in 0..n {
